@@ -166,6 +166,47 @@ M = [
   "            if tx.txs_replacements > 1 {\n                for _ in 0..tx.txs_replacements {", "            if tx.txs_replacements != 1 {\n                for _ in 0..tx.txs_replacements {"),
  ("C11-eq-capacity-from-lengths", C + "consensus_thread.rs",
   "                self.txs_for_mempool.reserve(transactions.len());", "                let expected = transactions.len() * 2;\n                self.txs_for_mempool.reserve(expected);"),
+ # ---------------- round 6
+ ("C01-ledger-check-half-period", C + "consensus/blockchain.rs",
+  "                .get_longest_chain_block_hash_at_block_id(latest_block_id - genesis_period);", "                .get_longest_chain_block_hash_at_block_id(latest_block_id - genesis_period / 2);"),
+ ("C01-eq-ledger-check-named-id", C + "consensus/blockchain.rs",
+  "            let result = self\n                .blockring\n                .get_longest_chain_block_hash_at_block_id(latest_block_id - genesis_period);\n            has_genesis_period_of_blocks = result.is_some();",
+  "            let oldest_needed_id = latest_block_id - genesis_period;\n            has_genesis_period_of_blocks = self\n                .blockring\n                .get_longest_chain_block_hash_at_block_id(oldest_needed_id)\n                .is_some();"),
+ ("C05-density-bypass-when-parent-on-chain", C + "consensus/blockchain.rs",
+  "    ) -> bool {\n        is_golden_ticket_count_valid_(\n            previous_block_hash,",
+  "    ) -> bool {\n        if self.blocks.get(&previous_block_hash).is_some_and(|b| b.in_longest_chain) {\n            return true;\n        }\n        is_golden_ticket_count_valid_(\n            previous_block_hash,"),
+ ("C05-eq-density-wrapper-named-bypass", C + "consensus/blockchain.rs",
+  "        is_golden_ticket_count_valid_(\n            previous_block_hash,\n            current_block_has_golden_ticket,\n            is_browser || is_spv,\n            |hash| self.get_block_sync(&hash),\n        )",
+  "        let bypass = is_browser || is_spv;\n        let verdict = is_golden_ticket_count_valid_(\n            previous_block_hash,\n            current_block_has_golden_ticket,\n            bypass,\n            |hash| self.get_block_sync(&hash),\n        );\n        verdict"),
+ ("C05-density-true-before-walk", C + "consensus/blockchain.rs",
+  "    let mut latest_block_hash = previous_block_hash;\n\n    for _ in 0..MIN_GOLDEN_TICKETS_DENOMINATOR - 1 {",
+  "    let mut latest_block_hash = previous_block_hash;\n\n    if current_block_has_golden_ticket && bypass {\n        return true;\n    }\n    for _ in 0..MIN_GOLDEN_TICKETS_DENOMINATOR - 1 {"),
+ ("C06-spv-accepted-again", C + "consensus/transaction.rs",
+  "            error!(\"ERROR: SPV transaction cannot be part of a full block or the mempool\");\n            return false;",
+  "            error!(\"ERROR: SPV transaction cannot be part of a full block or the mempool\");\n            return self.total_fees == 0;"),
+ ("C06-hash-store-only-when-none", C + "consensus/transaction.rs",
+  "        } else {\n            self.hash_for_signature = Some(hash(&self.serialize_for_signature()));\n        }",
+  "        } else if self.hash_for_signature.is_none() {\n            self.hash_for_signature = Some(hash(&self.serialize_for_signature()));\n        }"),
+ ("C06-eq-hash-via-local", C + "consensus/transaction.rs",
+  "        } else {\n            self.hash_for_signature = Some(hash(&self.serialize_for_signature()));\n        }",
+  "        } else {\n            let content_hash = hash(&self.serialize_for_signature());\n            self.hash_for_signature = Some(content_hash);\n        }"),
+ ("C06-block-generate-skips-hashed-transactions", C + "consensus/block.rs",
+  "        for tx in self.transactions.iter_mut() {\n            tx.generate(creator_public_key, tx_index, self.id);\n            if let TransactionType::SPV",
+  "        for tx in self.transactions.iter_mut() {\n            if tx.hash_for_signature.is_none() {\n                tx.generate(creator_public_key, tx_index, self.id);\n            }\n            if let TransactionType::SPV"),
+ ("C07-total-fees-new-only", C + "consensus/block.rs",
+  "        block.total_fees = block.total_fees_new + block.total_fees_atr;", "        block.total_fees = block.total_fees_new;"),
+ ("C07-eq-total-fees-from-cv-parts", C + "consensus/block.rs",
+  "        block.total_fees = block.total_fees_new + block.total_fees_atr;", "        block.total_fees = cv.total_fees_atr + cv.total_fees_new;"),
+ ("C07-eq-total-fees-from-cv", C + "consensus/block.rs",
+  "        block.total_fees = block.total_fees_new + block.total_fees_atr;", "        block.total_fees = cv.total_fees;"),
+ ("C08-routing-path-skipped-for-golden-tickets", C + "consensus/transaction.rs",
+  "            if !self.validate_routing_path() {", "            if self.transaction_type != TransactionType::GoldenTicket && !self.validate_routing_path() {"),
+ ("C03-new-chain-from-ring", C + "consensus/blockchain.rs",
+  "                new_chain.push(new_chain_hash);\n                new_chain_hash = block.previous_block_hash;",
+  "                new_chain.push(new_chain_hash);\n                new_chain_hash = self\n                    .blockring\n                    .get_block_hash_by_block_id(block.id.saturating_sub(1))\n                    .unwrap_or(block.previous_block_hash);"),
+ ("C20-read-reentry-wallet-in-failure-path", C + "consensus/blockchain.rs",
+  "        let public_key = {\n            let wallet = mempool.wallet_lock.read().await;\n            wallet.public_key\n        };\n        if block.creator == public_key {",
+  "        let wallet = self.wallet_lock.read().await;\n        let public_key = wallet.public_key;\n        let _still_ours = self.wallet_lock.read().await.public_key == public_key;\n        if block.creator == public_key {"),
 ]
 
 def main():
